@@ -6,6 +6,29 @@ from checks import streamcommon as sc
 PID = "C02"
 
 
+def gen_split_header(rng):
+    """a frame header that arrives in two calls (1..5 bytes, then the rest) while the output buffer could hold the whole content:
+    the decoder must not take the single-pass shortcut from the middle of the header; both formats, also following the hints"""
+    L = ["CNEW", "P %d %d" % (sc.P_LEVEL, rng.choice([1, 3, 6]))]
+    magicless = rng.random() < 0.7
+    if magicless:
+        L += ["P %d 1" % sc.P_FORMAT, "DP %d 1" % sc.D_FORMAT]
+    if rng.random() < 0.5:
+        L.append("P %d %d" % (sc.P_WLOG, rng.choice([10, 12, 17])))
+    if rng.random() < 0.3:
+        L.append("P %d 1" % sc.P_CSUM)
+    size = rng.choice([1, 300, 1025, 3000, 70000])
+    L.append("SRC %s %d %d" % (rng.choice(sc.KINDS), size, rng.randint(1, 9999)))
+    L.append("C 2 %d %d *" % (size, 1 << 20))            # one call: the content size is known and written
+    if rng.random() < 0.5:
+        L.append("SRC %s %d %d" % (rng.choice(sc.KINDS), 1500, rng.randint(1, 9999))); L.append("C 2 1500 1048576 *")
+    L += ["PREFIX end", "LAYOUT"]
+    for first in rng.sample([1, 2, 3, 4, 5, 6], 3):
+        L += ["DNEW"] + (["DP %d 1" % sc.D_FORMAT] if magicless else []) + ["D %d 1048576" % first, "D 1048576 1048576 *"]
+    L += ["DNEW"] + (["DP %d 1" % sc.D_FORMAT] if magicless else []) + ["DHINT 1048576", "DHINT 1048576", "DONE"]
+    return L
+
+
 def run(tier):
     ck = core.Check(PID, tier, "model_checking")
     exe = sc.build()
@@ -17,6 +40,11 @@ def run(tier):
             ck.warn("Stream.tla (%s): %s violated in the design model — specification-level finding, examined before any code verdict" % (cfg, r.invariant_violated))
     n = 300 if tier == "quick" else 3000
     scen = [sc.gen_history(ck.rng, tier, "c02") for _ in range(n)]
+    scen += [gen_split_header(ck.rng) for _ in range(24 if tier == "quick" else 300)]
+    # directed: multi-threaded long-distance matching on empty inputs / empty last pieces
+    for w in (1, 2):
+        scen.append(["CNEW", "P %d %d" % (sc.P_WORKERS, w), "P %d 1" % sc.P_JOB, "P %d 1" % sc.P_LDM, "P %d %d" % (sc.P_WLOG, ck.rng.choice([12, 20])), "SRC text 0 1", "C 1 0 64 *", "PREFIX flush",
+                     "SRC mix 0 2", "C 2 0 1000 *", "PREFIX end", "SRC text 600000 3", "C 1 600000 1048576 *", "SRC text 0 4", "C 2 0 1048576 *", "PREFIX end", "LAYOUT", "DNEW", "D 1048576 1048576 *", "DONE"])
     sc.validate_and_report(ck, exe, "c02", scen)
     for s in scen[:3]:
         ck.sample(s[:30])
